@@ -124,7 +124,7 @@ func c04Judge(c *core.Ctx, b, key []byte, what string, mustFail bool) {
 	if first < 0 || len(rm.TLVs) > 64 {
 		return
 	}
-	pick := int(gen.HashBytes(key)%uint64(first+1)) // an attribute at or before the MAC
+	pick := int(gen.HashBytes(key) % uint64(first+1)) // an attribute at or before the MAC
 	at := rm.TLVs[pick].Type
 	if at == 0x8020 {
 		at = 0x0020
